@@ -1181,6 +1181,9 @@ func (m *NetworkMachine) Export() (*am.Serialized, am.Schema, error) {
 
 // Schema returns a copy of machine's state structure.
 func (m *NetworkMachine) Schema() am.Schema {
+	m.schemaMx.RLock()
+	defer m.schemaMx.RUnlock()
+
 	return m.schema
 }
 
@@ -1704,6 +1707,9 @@ func (m *NetworkMachine) OnDispose(fn am.HandlerDispose) {
 func (m *NetworkMachine) mutAccepted(
 	mutType am.MutationType, states am.S,
 ) bool {
+	m.schemaMx.RLock()
+	defer m.schemaMx.RUnlock()
+
 	if m.schema == nil {
 		return true
 	}
